@@ -251,7 +251,7 @@ func runC04(rec *kit.Recorder, c c04Case) error {
 
 func TestVerif_C04(t *testing.T) {
 	rec := kit.Open(t, "C04",
-		"one or two generated compound shards (2-4 repositories with differing metadata, so that Meta atoms select some but not all of them) loaded with ZOEKT_DOCMATCHTREE_CACHE in {unset,1,2,64} (set per load, or - in every second process - set for the whole life of the process) x a history of 2-12 queries biased towards repeated Meta atoms, run sequentially or by 2-6 goroutines (twice each, rotated); each result must equal the same query alone on a freshly loaded index with the cache off; non-trivial = cache on and >= 2 queries of the history share a Meta atom and have a non-empty expected result; distinct by hash",
+		"one or two generated compound shards (2-4 repositories with differing metadata, so that Meta atoms select some but not all of them) loaded with ZOEKT_DOCMATCHTREE_CACHE in {unset,1,2,64} (set per load, or - in every second process - set for the whole life of the process) x a history of 2-12 queries biased towards repeated Meta atoms (also three or four distinct ones in a single query) and towards repository id / name sets of equal size with different members, run sequentially or by 2-6 goroutines (twice each, rotated); each result must equal the same query alone on a freshly loaded index with the cache off; non-trivial = cache on and >= 2 queries of the history share a Meta atom and have a non-empty expected result; distinct by hash",
 		"results are compared per file (line / chunk matches, branches) without scores' debug strings",
 		"concurrent runs explore the interleavings the Go scheduler produces",
 	)
@@ -279,10 +279,45 @@ func TestVerif_C04(t *testing.T) {
 			}
 			r.Tombstone = false
 		}
-		pool := []kit.QSpec{genMetaAtom(g), genMetaAtom(g)}
+		if len(c.Corpus.Repos) < 3 && g.Bool(60, "threerepos") {
+			c.Corpus.Repos = append(c.Corpus.Repos, kit.GenRepo(g, o, len(c.Corpus.Repos), fmt.Sprintf("extra.example/r%d", len(c.Corpus.Repos))))
+			c.Corpus.Repos[len(c.Corpus.Repos)-1].Tombstone = false
+		}
+		pool := []kit.QSpec{genMetaAtom(g), genMetaAtom(g), genMetaAtom(g), genMetaAtom(g)}
+		// repository filters that print alike (same number of members) and
+		// select different repositories: id sets of equal size, name sets of
+		// more than five names
+		var rpool []kit.QSpec
+		nr := len(c.Corpus.Repos)
+		for k := 0; k < 2; k++ {
+			a, b := g.U(nr, "ridA"), g.U(nr, "ridB")
+			rpool = append(rpool, kit.QSpec{Op: "repoids", IDs: []uint32{c.Corpus.Repos[a].ID, c.Corpus.Repos[(a+1)%nr].ID}},
+				kit.QSpec{Op: "repoids", IDs: []uint32{c.Corpus.Repos[b].ID, 999}},
+				kit.QSpec{Op: "reposet", Strs: []string{c.Corpus.Repos[a].Name, "n1", "n2", "n3", "n4", "n5"}},
+				kit.QSpec{Op: "reposet", Strs: []string{c.Corpus.Repos[b].Name, c.Corpus.Repos[(b+1)%nr].Name, "n2", "n3", "n4", "n5"}})
+		}
 		n := g.Int(2, 12, "nhist")
 		for i := 0; i < n; i++ {
-			switch g.U(6, "hk") {
+			switch g.U(9, "hk") {
+			case 6, 7:
+				// a repository filter of the pool, alone or with text
+				f := kit.Pick(g, rpool, "rpool")
+				if g.Bool(50, "rpooltxt") {
+					txt, _ := kit.GenQuery(g, &c.Corpus, kit.QueryOpts{MaxDepth: 1, FoldSafe: true}, 0)
+					f = kit.QSpec{Op: "and", Kids: []kit.QSpec{f, txt}}
+				}
+				c.History = append(c.History, f)
+			case 8:
+				// one query with three or four metadata atoms (more than a small cache holds)
+				q := kit.QSpec{Op: kit.Pick(g, []string{"and", "or"}, "manyop")}
+				for _, k := range rapid.Permutation([]int{0, 1, 2, 3}).Draw(g.T, "manyperm")[:3+g.U(2, "manyn")] {
+					a := pool[k]
+					if g.Bool(25, "manynot") {
+						a = kit.QSpec{Op: "not", Kids: []kit.QSpec{a}}
+					}
+					q.Kids = append(q.Kids, a)
+				}
+				c.History = append(c.History, q)
 			case 0, 1:
 				c.History = append(c.History, kit.Pick(g, pool, "pool"))
 			case 2, 3:
